@@ -1158,8 +1158,10 @@ void run_case(uint64_t seed, long icase, bool thorough)
     rwlearners_t fitted; // pool for the merge clause
     scalar_t     stump_score[4] = {0, 0, 0, 0};
     rwlearner_t  stumps[4];
-    const bool dstep_ok = dstep_safe(gg);
-    if (!dstep_ok) cnt.dstep_excluded++;
+    // since repo commit "fix: dstep table with a feature without values" nothing is excluded any more: a categorical feature
+    // without any selected value (bins == 0) is a legal input of the discrete-step table (counted, not skipped)
+    const bool dstep_ok = true;
+    if (!dstep_safe(gg)) cnt.dstep_excluded++;
     for (const char* cname : names)
     {
         const std::string name = cname;
